@@ -46,6 +46,12 @@ var c09rankers = []rankerSpec{
 		rr := r.Fork()
 		return func(a, b Tag) age.Rank { return age.Rank(rr.Intn(3)) }
 	}},
+	// Rank is an open integer type: a ranker may answer with something that is none of
+	// the three named ranks ("unordered"); the result is still a permutation
+	{"out-of-range", false, func(r *core.Rng) func(a, b Tag) age.Rank {
+		rr := r.Fork()
+		return func(a, b Tag) age.Rank { return age.Rank([]int{0, 1, 2, 3, 7, 255}[rr.Intn(6)]) }
+	}},
 }
 
 type rankLimit struct{ calls int }
@@ -584,4 +590,101 @@ func clipTags(t []Tag) string {
 		return fmt.Sprintf("%v… (n=%d)", t[:24], len(t))
 	}
 	return fmt.Sprint(t)
+}
+
+// RunC09Sequences: several sorting operations in a row on ONE Array, List and
+// Catalog (natural order, a ranker of the caller's, reverse, shuffle); after
+// each the collection must hold what the sorter makes of the equivalent Go
+// array (for a shuffle: a permutation).  A collection that remembers "I am
+// sorted" must forget it at the right moments.
+func RunC09Sequences(c *core.Ctx) {
+	r := c.Rng
+	n := r.Range(2, 9)
+	vals := make([]int, n)
+	for i := range vals {
+		vals[i] = r.Intn(2 * n) // a few duplicates
+	}
+	arr := col.Array[int](Notation).MakeFromArray(vals)
+	lst := col.List[int](Notation).MakeFromArray(vals)
+	cat := col.Catalog[int, int](Notation).Make()
+	model := Clone(vals)
+	keys := make([]int, 0, n) // catalog: distinct keys in order, value = -key
+	seenK := map[int]bool{}
+	for _, v := range vals {
+		if !seenK[v] {
+			seenK[v] = true
+			keys = append(keys, v)
+			cat.SetValue(v, -v)
+		}
+	}
+	desc := func(a, b int) age.Rank { return cmp3(b, a) }
+	descA := func(a, b col.AssociationLike[int, int]) age.Rank { return cmp3(b.GetKey(), a.GetKey()) }
+	var script []string
+	for step := 0; step < r.Range(2, 5); step++ {
+		op := []string{"SortValues", "SortValuesWithRanker(descending)", "ReverseValues", "ShuffleValues", "SetValue"}[r.Intn(5)]
+		script = append(script, op)
+		cs := map[string]any{"values": fmt.Sprint(vals), "operations": script}
+		pan, _, msg := Try(func() {
+			switch op {
+			case "SortValues":
+				arr.SortValues()
+				lst.SortValues()
+				cat.SortValues()
+				sort.Ints(model)
+				sort.Ints(keys)
+			case "SortValuesWithRanker(descending)":
+				arr.SortValuesWithRanker(desc)
+				lst.SortValuesWithRanker(desc)
+				cat.SortValuesWithRanker(descA)
+				sort.Sort(sort.Reverse(sort.IntSlice(model)))
+				sort.Sort(sort.Reverse(sort.IntSlice(keys)))
+			case "ReverseValues":
+				arr.ReverseValues()
+				lst.ReverseValues()
+				cat.ReverseValues()
+				model = reverse(model)
+				keys = reverse(keys)
+			case "ShuffleValues":
+				arr.ShuffleValues()
+				lst.ShuffleValues()
+				cat.ShuffleValues()
+				model, keys = nil, nil
+			default:
+				// an update in place (the catalog gets a new key at the end)
+				v := 100 + step
+				arr.SetValue(1, v)
+				lst.SetValue(1, v)
+				cat.SetValue(v, -v)
+				if model != nil {
+					model[0] = v
+					keys = append(keys, v)
+				}
+			}
+		})
+		if pan {
+			c.Violation("sort.sequence/panicked", op+" panicked: "+msg, cs)
+			return
+		}
+		if model == nil {
+			// after a shuffle only the multiset is known: re-read the arrangement
+			model = arr.AsArray()
+			if fmt.Sprint(sortedInts(model)) != fmt.Sprint(sortedInts(lst.AsArray())) {
+				c.Violation("sort.sequence/shuffle-not-a-permutation", fmt.Sprintf("array %v list %v", model, lst.AsArray()), cs)
+				return
+			}
+			lst = col.List[int](Notation).MakeFromArray(model)
+			keys = cat.GetKeys().AsArray()
+			continue
+		}
+		if fmt.Sprint(arr.AsArray()) != fmt.Sprint(model) || fmt.Sprint(lst.AsArray()) != fmt.Sprint(model) {
+			c.Violation("sort.sequence/collection-differs", fmt.Sprintf("after %v: array %v list %v, the equivalent Go array %v", script, arr.AsArray(), lst.AsArray(), model), cs)
+			return
+		}
+		if got := cat.GetKeys().AsArray(); fmt.Sprint(got) != fmt.Sprint(keys) {
+			c.Violation("sort.sequence/catalog-differs", fmt.Sprintf("after %v: catalog keys %v, expected %v", script, got, keys), cs)
+			return
+		}
+	}
+	c.Cover("sort-sequences")
+	c.Distinct(core.HashStr(fmt.Sprint(vals, script)))
 }
